@@ -153,6 +153,18 @@ def run(ctx):
         documents.append("import qmluic.QtWidgets\nQLabel { text: qsTr('%s') + \"%s\" }\n" % (b.replace("'", ""), b))
         nlit += 2
     documents.append('import "\\é"\nQLabel { }\n')
+    # binding names of every capitalisation pattern (property / grouped property / attached type / none of these): text, Text, font.bold, Font.Bold, A.B, A.B.C ...
+    import itertools
+    comps = ["text", "Text", "font", "Font", "bold", "Bold", "QLayout", "row", "Row", "A", "B", "Layout", "Alignment", "QTabWidget", "title", "Qt"]
+    names = [[c] for c in comps] + [list(t) for t in itertools.product(comps, repeat=2)]
+    names += [["A", "B", "C"], ["QLayout", "Row", "x"], ["font", "Bold", "x"], ["Font", "bold", "Italic"], ["a", "B", "c"], ["A", "b", "C"]]
+    if ctx.tier != "thorough":
+        names = names[:len(comps)] + rng.sample(names[len(comps):-6], 70) + names[-6:]
+    for nm in names:
+        dotted = ".".join(nm)
+        for val in ("1", '"x"', "{ bold: true }" if len(nm) == 1 else "Qt.AlignRight"):
+            documents.append("import qmluic.QtWidgets\nQWidget { QVBoxLayout { QLabel { %s: %s; text: \"t\" } } }\n" % (dotted, val))
+    ctx.dist("doc-binding-name-shapes", 3 * len(names))
     ctx.dist("doc-literal-spelling", nlit + 1)
     # strings consumed by the value-type constructors (colours, brushes, key sequences, pixmaps, icons): multi-byte characters at every offset
     # of every accepted length, near-miss keywords
